@@ -43,7 +43,7 @@ import time
 VERIF = os.path.dirname(os.path.dirname(os.path.abspath(__file__)))
 REPO = os.environ.get("VERIF_REPO", "/repo")
 BUILD = os.path.join(VERIF, ".build")
-KANI_DIR = os.path.join(VERIF, "kani")
+KANI_DIR = os.environ.get("VERIF_KANI_DIR", os.path.join(VERIF, "kani"))  # override: development copy of the harness crate
 JOBS = int(os.environ.get("VERIF_JOBS", "16"))
 RSS_LIMIT_GB = float(os.environ.get("VERIF_KANI_RSS_GB", "12"))
 MIN_AVAIL_GB = float(os.environ.get("VERIF_KANI_MIN_AVAIL_GB", "5"))
@@ -136,6 +136,8 @@ def _crate(repo=None):
     """(crate dir, target dir) for the tree under test."""
     repo = repo or REPO
     if repo == "/repo":
+        if "VERIF_KANI_DIR" in os.environ:
+            return KANI_DIR, os.path.join(os.path.dirname(os.path.abspath(KANI_DIR)), "target")
         return KANI_DIR, os.path.join(BUILD, "kani")
     alt = os.path.join(BUILD, "kani-alt")
     _copy_crate(os.path.join(alt, "crate"), repo)
